@@ -167,6 +167,9 @@ func TestVerifC10(t *testing.T) {
 		}
 		R.Mark(c.Name)
 		c10Run(R, rng, c, occ)
+		if ents, err := os.ReadDir("/proc/self/fd"); err == nil {
+			fmt.Fprintf(os.Stderr, "c10: %d descriptors open after %s\n", len(ents), c.Name)
+		}
 	}
 	R.Set("upgrade_queue_occupancy_at_enqueue", occ)
 	verifSetDelay("exec.update", 0)
@@ -204,6 +207,7 @@ func c10Run(R *vr.Result, rng *rand.Rand, c c10Cfg, occ map[string]int) {
 	}
 	mode := c.Mode
 	var master *httptest.Server
+	var masterOpen, masterConns int64 // connections the upgrade master has accepted and not yet seen closed / ever accepted
 	var stallLn net.Listener
 	switch c.Mode {
 	case "remote-healthy":
@@ -215,7 +219,17 @@ func c10Run(R *vr.Result, rng *rand.Rand, c c10Cfg, occ map[string]int) {
 			return
 		}
 		h, _ := newWebHandler(ms.GetInterface())
-		master = httptest.NewServer(h)
+		master = httptest.NewUnstartedServer(h)
+		master.Config.ConnState = func(_ net.Conn, st http.ConnState) {
+			switch st {
+			case http.StateNew:
+				atomic.AddInt64(&masterOpen, 1)
+				atomic.AddInt64(&masterConns, 1)
+			case http.StateClosed, http.StateHijacked:
+				atomic.AddInt64(&masterOpen, -1)
+			}
+		}
+		master.Start()
 		defer func() { go master.Close() }()
 		mode = master.URL + "/api/update"
 	case "remote-unreachable":
@@ -367,6 +381,33 @@ func c10Run(R *vr.Result, rng *rand.Rand, c c10Cfg, occ map[string]int) {
 		one := int64(1)
 		if c10Watch(R, c.Name+"/probes", pd, &z, &one) == "completed" {
 			probesOK = true
+		}
+	}
+	// a slave that keeps accepting new requests must not pile up connections to its upgrade master: at most 10 upgrades
+	// are in flight at any time (rate-limit semaphore), so once all of them are done no more than that may still be open
+	if master != nil && verdict == "completed" {
+		started, finished := 0, 0
+		c19Wait(60*time.Second, func(ev []verifEvt) bool {
+			started, finished = 0, 0
+			for _, e := range ev {
+				switch e.Kind {
+				case "remote.start":
+					started++
+				case "remote.done":
+					finished++
+				}
+			}
+			return started == finished
+		})
+		time.Sleep(300 * time.Millisecond)
+		open := atomic.LoadInt64(&masterOpen)
+		R.Count("remote_upgrades_finished", finished)
+		R.Count("master_connections_accepted", int(atomic.LoadInt64(&masterConns)))
+		R.Set("master_connections_open_at_quiescence:"+c.Name, open)
+		if started != finished {
+			R.Inconcl("remote upgrades still running 60 s after the last request: " + c.Name)
+		} else if open > 10 {
+			R.Violate("c10:connections-to-upgrade-master-pile-up", fmt.Sprintf("%d remote upgrades have finished and none is in flight, but %d connections to the upgrade master are still open (the master never closes idle connections): every upgrade leaves one descriptor behind, so at volume the agent runs out of descriptors and stops accepting requests", finished, open), c.Name, map[string]any{"config": c, "remote_upgrades_finished": finished, "master_connections_open": open, "master_connections_accepted": atomic.LoadInt64(&masterConns)})
 		}
 	}
 	// hook-event evidence
